@@ -925,6 +925,93 @@ impl<'a, 'b> Gen<'a, 'b> {
         cmds
     }
 
+    /// Rules that keep changing the database for several iterations.
+    fn dynamics_scenario(&mut self) -> Vec<Cmd> {
+        let mut cmds = vec![];
+        let rs = self.pick_ruleset();
+        // binary relation over one type
+        let bins: Vec<usize> = self.sig.funcs.iter().enumerate().filter(|(_, f)| f.is_rel() && f.args.len() == 2 && f.args[0] == f.args[1] && !matches!(f.args[0], Ty::Cont(_))).map(|(i, _)| i).collect();
+        let counters: Vec<usize> = self
+            .sig
+            .funcs
+            .iter()
+            .enumerate()
+            .filter(|(_, f)| matches!(f.kind, FKind::Func { merge: Merge::Max | Merge::MaxNested }) && f.out == Ty::I64)
+            .map(|(i, _)| i)
+            .collect();
+        let unary: Vec<usize> = self.sig.funcs.iter().enumerate().filter(|(_, f)| f.is_ctor() && f.args.len() == 1 && f.args[0] == f.out).map(|(i, _)| i).collect();
+        let w = [if bins.is_empty() { 0 } else { 4 }, if counters.is_empty() { 0 } else { 3 }, if unary.is_empty() || !self.cfg.generative { 0 } else { 3 }];
+        if w.iter().sum::<usize>() == 0 {
+            return cmds;
+        }
+        match self.src.pick_weighted(&w) {
+            0 => {
+                let r = *self.src.pick(&bins);
+                let ty = self.sig.funcs[r].args[0].clone();
+                // a chain of 3..6 distinct values
+                let n = 3 + self.src.below(4);
+                let vals: Vec<Term> = match ty {
+                    Ty::I64 => (0..n as i64).map(Term::I).collect(),
+                    _ => {
+                        let mut v: Vec<Term> = self.pool.iter().filter(|(t, _)| *t == ty).map(|(_, x)| x.clone()).collect();
+                        v.truncate(n);
+                        v
+                    }
+                };
+                for wdw in vals.windows(2) {
+                    cmds.push(Cmd::Act(Action::Expr(Term::App(r, vec![wdw[0].clone(), wdw[1].clone()]))));
+                }
+                let (x, y, z) = (Term::Var("tx".into()), Term::Var("ty".into()), Term::Var("tz".into()));
+                cmds.push(Cmd::Rule {
+                    body: vec![Fact::T(Term::App(r, vec![x.clone(), y.clone()])), Fact::T(Term::App(r, vec![y, z.clone()]))],
+                    head: vec![Action::Expr(Term::App(r, vec![x, z]))],
+                    opts: RuleOpts { ruleset: rs, ..Default::default() },
+                });
+                self.note_rule(rs, true);
+            }
+            1 => {
+                let g = *self.src.pick(&counters);
+                let decl = self.sig.funcs[g].clone();
+                let args: Vec<Term> = decl.args.iter().map(|t| self.ground(t)).collect();
+                cmds.push(Cmd::Act(Action::Set(g, args, Term::I(0))));
+                let vars: Vec<Term> = (0..decl.args.len()).map(|i| Term::Var(format!("cv{i}"))).collect();
+                let v = Term::Var("cval".into());
+                let bound = 2 + self.src.below(5) as i64;
+                cmds.push(Cmd::Rule {
+                    body: vec![Fact::Eq(v.clone(), Term::App(g, vars.clone())), Fact::T(Term::Prim("<".into(), vec![v.clone(), Term::I(bound)]))],
+                    head: vec![Action::Set(g, vars, Term::Prim("+".into(), vec![v, Term::I(1)]))],
+                    opts: RuleOpts { ruleset: rs, ..Default::default() },
+                });
+                // bounded by the guard: terminates, finite
+                self.note_rule(rs, true);
+            }
+            _ => {
+                // tower growth with fuel: (rule ((= y (F x)) (Fuel n) ...)) is overkill; use depth-bounded rewrite F(F(x)) -> F(x) plus growth F(x) for leaves only
+                let f = *self.src.pick(&unary);
+                let ty = self.sig.funcs[f].out.clone();
+                let leaves: Vec<Term> = self.pool.iter().filter(|(t, x)| *t == ty && x.size() == 1).map(|(_, x)| x.clone()).collect();
+                let l = self.src.pick(&leaves).clone();
+                let mut t = l.clone();
+                let k = 2 + self.src.below(4);
+                for _ in 0..k {
+                    t = Term::App(f, vec![t]);
+                }
+                cmds.push(Cmd::Act(Action::Expr(t)));
+                let x = Term::Var("gx".into());
+                // collapse one level per iteration: F(F(x)) = F(x)
+                cmds.push(Cmd::Rewrite { lhs: Term::App(f, vec![Term::App(f, vec![x.clone()])]), rhs: Term::App(f, vec![x]), when: vec![], subsume: false, bi: false, ruleset: rs });
+                self.note_rule(rs, true);
+            }
+        }
+        let n = 2 + self.src.below(4);
+        if self.src.chance(1, 3) {
+            cmds.push(Cmd::Sched(Sched::Saturate(vec![Sched::Run { rs, until: vec![] }])));
+        } else {
+            cmds.push(Cmd::RunN { rs, n, until: vec![] });
+        }
+        cmds
+    }
+
     pub fn gen_prog(&mut self) -> Prog {
         self.gen_sig();
         let n = self.cfg.min_cmds + self.src.below(self.cfg.max_cmds - self.cfg.min_cmds + 1);
@@ -957,6 +1044,11 @@ impl<'a, 'b> Gen<'a, 'b> {
         // phase 0b: in-place container rebuild scenario (#831 / nested dirty-id shapes)
         if self.cfg.containers && self.src.chance(1, 2) {
             let sc = self.container_scenario();
+            cmds.extend(sc);
+        }
+        // phase 0c: multi-iteration dynamics (transitive closure over a binary relation / bounded counter)
+        if self.src.chance(2, 5) {
+            let sc = self.dynamics_scenario();
             cmds.extend(sc);
         }
         // phase 1: populate
